@@ -18,7 +18,10 @@ Sparse-matrix primitives used by the definitions that `tools/rs2lean_fn.py` gene
       when its validity checks pass, `none` otherwise (the code `unwrap()`s it);
   `CscMatrix::zeros(m, n)`, `SpMat::zero((m, n))` ↦ `SpMat.zero`;  `v.into_inner()` ↦ the `dim × 1` matrix `SpVec.toMat`;
   `m.nnz()` ↦ the number of stored entries;  `r.contains(&i)` ↦ `start ≤ i < end`;
-  `for x in list { … continue … }` ↦ `Sp.forList`;  `it.enumerate()` ↦ `Sp.enumerate`.
+  `for x in list { … continue … }` ↦ `Sp.forList`;  `it.enumerate()` ↦ `Sp.enumerate`;  `v[i]` on a `Vec` ↦ `Sp.list_get`.
+
+Target `fn:trans` (trans.rs) uses, besides these, the model's `SpMat.id`, `SpMat.mul`, `SpMat.mulVec`, `fromEntries`,
+`fromRowPerm`, `fromColPerm` directly (functions of other files; the last three are tied to sp_mat.rs by `fn:spmat`).
 -/
 namespace Yuiv.Rust
 open Yuiv Res
@@ -33,6 +36,10 @@ def disassemble (A : C13.SpMat R) : List Nat × List Nat × List R := A.disassem
 def vec_inner (v : C13.SpVec R) : C13.SpMat R := v.toMat
 def zero (shape : Nat × Nat) : C13.SpMat R := C13.SpMat.zero shape.1 shape.2
 def range_contains (r : Nat × Nat) (i : Nat) : Bool := decide (r.1 ≤ i) && decide (i < r.2)
+/-- `SpMat::is_id`: square, every stored diagonal entry `1`, every stored off-diagonal entry `0` -/
+def is_id [Zero R] [One R] [DecidableEq R] (A : C13.SpMat R) : Bool :=
+  decide (A.nrows = A.ncols) &&
+    A.triplets.all (fun t => (decide (t.1 = t.2.1) && decide (t.2.2 = 1)) || (decide (t.1 ≠ t.2.1) && decide (t.2.2 = 0)))
 
 def try_from_csc_data (m n : Nat) (offs rows : List Nat) (vals : List R) : Option (C13.SpMat R) :=
   match C13.tryFromCsc m n offs rows vals with
@@ -49,6 +56,12 @@ def Coo.new (m n : Nat) : Coo R := ⟨m, n, []⟩
 def Coo.push (c : Coo R) (i j : Nat) (a : R) : Res (Coo R) :=
   if i < c.m ∧ j < c.n then ok { c with es := c.es ++ [(i, j, a)] } else panic
 def Coo.to_csc [Zero R] [Add R] [DecidableEq R] (c : Coo R) : C13.SpMat R := C13.cooToCsc c.m c.n c.es
+
+/-- `v[i]` on a `Vec` (index panic) -/
+def list_get {β : Type} (l : List β) (i : Nat) : Res β :=
+  match l[i]? with
+  | some x => ok x
+  | none => panic
 
 def enumFrom {β : Type} : Nat → List β → List (Nat × β)
   | _, [] => []
